@@ -551,6 +551,16 @@ def generate(repo):
                 raise TranslateError(f"ureg.py: transformer target {right!r} is not a NIST relationship unit")
             own_rel = dict(own)
             _ph, de = parse_rhs(default, lambda t: ("", t) if re.fullmatch(r"[a-z_]+_to_[a-z_]+", t) else resolve(t))
+            def _note_default(e):
+                if e[0] == "atom":
+                    if e[2] not in own and not re.fullmatch(r"[a-z_]+_to_[a-z_]+", e[2]):
+                        used_plain.add(e[2])
+                elif e[0] in ("mul", "div"):
+                    _note_default(e[1])
+                    _note_default(e[2])
+                elif e[0] == "pow":
+                    _note_default(e[1])
+            _note_default(de)
             contexts.append((src, dst, f"(HNamed {cstr(right)} {cexpr(de)})"))
         else:
             contexts.append((src, dst, "HMulNA" if kind == "mulNA" else "HDivNA"))
